@@ -189,15 +189,6 @@ Theorem C01_too_few_arguments_refuted :
   fst (runM 60 w_short_args) = Ok (VList [VInt 1; VSym "x"]) /\ fst (runS 60 w_short_args) = Er EArity /\ guardb 60 w_short_args = false.
 Proof. exact too_few_arguments_refuted. Qed.
 Print Assumptions C01_too_few_arguments_refuted.
-Theorem C01_loop_scope_refuted :
-  forallb (fun p => guardb 60 p) [w_dolist_scope; w_dotimes_scope; w_dostar_scope] = false /\
-  fst (runM 60 w_dolist_scope) = Ok VNil /\ fst (runS 60 w_dolist_scope) = Ok (VInt 10) /\
-  fst (runM 60 w_dotimes_scope) = Ok (VInt 2) /\ fst (runS 60 w_dotimes_scope) = Ok (VInt 10) /\
-  fst (runM 60 w_dostar_scope) = Ok (VInt 5) /\ fst (runS 60 w_dostar_scope) = Ok (VInt 1) /\
-  guardb 60 w_dolist_scope = false /\ guardb 60 w_dotimes_scope = false /\ guardb 60 w_dostar_scope = false.
-Proof. exact loop_scope_refuted. Qed.
-Print Assumptions C01_loop_scope_refuted.
-
 (* (10) Repaired defects (repo_fixes/C01-6 ...): the former witnesses, evaluated in the three modes - the model of the
    repaired Go code, the reference evaluator and the guard run agree, i.e. the programs are now inside the guard.
    End test of do / do* that is not a list form (t, a variable): evaluated like any other test. *)
@@ -228,3 +219,18 @@ Theorem C01_progn_values_passed :
   forallb (fun m => match fst (run m 60 w_progn_values) with Ok (VList [VInt 1; VInt 2]) => true | _ => false end) [Slip; Ref; Chk] = true.
 Proof. exact progn_values_passed. Qed.
 Print Assumptions C01_progn_values_passed.
+
+(* loop forms (repo_fixes/C01-12, C01-13): the list form of dolist, the count form of dotimes and the init forms of do*
+   are evaluated outside the scope of the variable(s) they precede; the former witnesses yield 10, 10 and 1 in every
+   mode; the init forms of do* proceed like those of let*. *)
+Theorem C01_loop_forms_outer_scope :
+  forallb (fun m => match fst (run m 60 w_dolist_scope), fst (run m 60 w_dotimes_scope), fst (run m 60 w_dostar_scope) with
+                    | Ok (VInt 10), Ok (VInt 10), Ok (VInt 1) => true | _, _, _ => false end) [Slip; Ref; Chk] = true.
+Proof. exact loop_forms_outer_scope. Qed.
+Print Assumptions C01_loop_forms_outer_scope.
+Theorem C01_dostar_inits_like_letstar : forall m ev st sc x e s bs,
+  ev_inits_seq m ev st sc ((x, e, s) :: bs) =
+  bind (ev st sc e) (fun v st1 => bindo (store_red m v) st1 (fun a =>
+    ev_inits_seq m ev (snd (alloc st1 [(x, a)])) ((List.length (frames st1), 1) :: sc) bs)).
+Proof. exact dostar_inits_like_letstar. Qed.
+Print Assumptions C01_dostar_inits_like_letstar.
